@@ -936,8 +936,71 @@ def self_comparisons(facts, rep):
 _run_k = run
 
 
+def output_value_kept(facts, rep):
+    """C09.O: the memory-saving step of evaluate_graph never frees the value that is returned at the end"""
+    rep.rule("C09.O", "evaluate_graph returns node_values[output].unwrap(): every `values[i] = None` in it (freeing a value whose "
+                      "consumers have run) is unreachable when i equals the output node's id - the write is controlled by a "
+                      "comparison of the freed index with get_output_node().get_id()")
+    ev = [n for n in facts.bodies if n.endswith("Evaluator::evaluate_graph")]
+    if not rep.anchor("C09.O", "evaluators::Evaluator::evaluate_graph", ev):
+        return
+    parent = facts.bodies[ev[0]]
+    pfl = Flow(facts, parent)
+
+    def is_output_id(b, fl, op, at):
+        for o in fl.origins(op, at):
+            if o[0] == "call" and o[2] == "graphs::Node::get_id":
+                recv = fl.origins(b.term(o[1])["args"][0], (o[1], None))
+                if any(r[0] == "call" and r[2] == "graphs::Graph::get_output_node" for r in recv):
+                    return True
+            if o[0] == "upvar" and b is not parent:
+                site = [(bb, j, rv) for bb, j, place, rv in parent.assigns()
+                        if rv[0] == "agg" and rv[1].get("k") == "closure" and rv[1].get("def") == b.id]
+                if len(site) == 1 and o[1] < len(site[0][2][2]):
+                    if is_output_id(parent, pfl, site[0][2][2][o[1]], (site[0][0], site[0][1])):
+                        return True
+        return False
+
+    n = 0
+    for b in [parent] + list(facts.closures_of(parent.id)):
+        fl = Flow(facts, b)
+        frees = [(bb, j, place) for bb, j, place, rv in b.assigns() if rv[0] == "agg" and rv[1].get("vn") == "None"
+                 and b.local_ty(place[0]) == "std::option::Option<data_values::Value>" and len(place) == 1 and not b.is_cleanup(bb)]
+        # keep the None values that are stored into an indexed slot
+        stores = []
+        for bb, j, place in frees:
+            for bb2, j2, place2, rv2 in b.assigns():
+                if rv2[0] == "use" and rv2[1][0] != "k" and rv2[1][1] == [place[0]] and any(str(p_).startswith("i") for p_ in place2[1:]) \
+                        and not b.is_cleanup(bb2):
+                    idx = [int(str(p_)[1:]) for p_ in place2[1:] if str(p_).startswith("i") and str(p_)[1:].isdigit()]
+                    stores.append((bb, bb2, idx[0] if idx else None))
+        cmps = [(bb, j, place[0], rv) for bb, j, place, rv in b.assigns() if rv[0] == "bin" and rv[1] in ("Eq", "Ne") and len(place) == 1]
+        for k, (fb, sb, idx) in enumerate(stores):
+            n += 1
+            ok = False
+            for cb, cj, cl, rv in cmps:
+                sides = [rv[2], rv[3]]
+                outs = [is_output_id(b, fl, o_, (cb, cj)) for o_ in sides]
+                if outs[0] == outs[1]:
+                    continue
+                other = sides[1] if outs[0] else sides[0]
+                if idx is not None and not (fl.origins(other, (cb, cj)) & fl.origins(["c", [idx]], (sb, None))):
+                    continue
+                res = V.executable_under(facts, b, forced={cl: ("b", rv[1] == "Eq")})
+                if sb not in res.blocks:
+                    ok = True
+            rep.ob("C09.O", "%s|free#%d" % (b.id.split("::")[-1] if b is not parent else "evaluate_graph", k), ok,
+                   "the slot that is freed is compared with the output node's id and the write is unreachable when they are equal"
+                   if ok else
+                   "a node value is freed without excluding the output node: when the output node has consumers inside the graph, "
+                   "the final node_values[output].unwrap() panics", b.loc(sb))
+    rep.analysed["value_freeing_writes_in_evaluate_graph"] = n
+    rep.note("C09.O: %d freeing write(s) found in evaluate_graph (0 would mean values are never freed: nothing to show)" % n)
+
+
 def run(facts, rep, tier):
     _run_k(facts, rep, tier)
+    output_value_kept(facts, rep)
     payload_indices(facts, rep)
     self_comparisons(facts, rep)
     arity_rules(facts, rep)
